@@ -44,6 +44,9 @@ func init() {
 			{Name: "VAR-SLICE", What: "in the BAM record/aux decoders every variable slice bound is compared with the slice's length on a dominating edge", Floor: 6, Run: ruleVarSlice(varSliceFuncs)},
 			{Name: "LOOP-PROGRESS", What: "bam.parseAux's cursor advances by ≥ 1 on every path round its loop", Floor: 1, Run: ruleLoopProgress(loopProgressFuncs)},
 			{Name: "ACCEPT-AGREE", What: "the aux types and array element types bam.parseAux lets through are exactly those sam.Aux.Value decodes and the format defines (both sets computed by partial evaluation of the branch conditions under each value of the type and subtype bytes)", Floor: 2, Run: ruleAcceptAgree},
+			{Name: "MAP-INIT", What: "every map field that methods write through an existing object is made, on every path, before a function that allocates the object returns it (through callees by summary): a decoded or new value never has a nil map that Add/Set would write to", Floor: 8, Run: ruleMapInit},
+			{Name: "BIN-WIDTH", What: "every binary.ByteOrder UintN/PutUintN call gets at least N/8 bytes: known slice length, constant difference of bounds, or a helper that returns n bytes or nil whose nil conditions the caller has excluded", Floor: 20, Run: ruleBinWidth},
+			{Name: "DST-FITS", What: "every hex.Decode in the library writes into a destination made for its source, or into a fixed array under a dominating bound on the source's decoded length", Floor: 3, Run: ruleDstFits},
 			{Name: "SHIFT-FITS", What: "in csi.ReadFrom every shift by a computed amount (a function of the decoded depth) is bounded below the width of the shifted type", Floor: 1, Run: ruleShiftFits},
 			{Name: "OFFSET-FITS", What: "fai.ReadFrom bounds BytesPerLine (relative to the number of lines) and Start (relative to the record's extent), the operands of the unchecked product and sum in Record.position", Floor: 2, Run: ruleOffsetFits},
 		},
